@@ -425,9 +425,15 @@ class Bip32Path(object):
         :param str_int: string representation of number
         :return: number
         """
-        if str_int[-1] in ("'", "h"):
-            return int(str_int[:-1]) + (2 ** 31)
-        return int(str_int)
+        hardened = str_int[-1] in ("'", "h")
+        digits = str_int[:-1] if hardened else str_int
+        # int() would also take signs, blanks, underscores, non-ascii digits
+        if not (digits.isascii() and digits.isdigit()):
+            raise ValueError("incorrect path component: {}".format(str_int))
+        num = int(digits)
+        if num >= (2 ** 31 if hardened else 2 ** 32):
+            raise ValueError("path component out of range: {}".format(str_int))
+        return num + (2 ** 31) if hardened else num
 
     def repr_hardened(self, num: int) -> str:
         """
